@@ -799,6 +799,7 @@ func (mc *machine) insert(rt *rapid.T) {
 	for id := range mc.rows {
 		cur[id] = true
 	}
+	nullDefault := false
 	for _, cells := range rows {
 		id := cells[0].v.i
 		b := t.build(cells, ignore)
@@ -829,8 +830,8 @@ func (mc *machine) insert(rt *rapid.T) {
 				o.defaulted = o.defaulted || mc.declaredDefault(b)
 			}
 		case "insert-ignore":
-			if len(b.nullDefault) > 0 && !cur[id] {
-				o.class = either
+			if len(b.nullDefault) > 0 {
+				nullDefault = true
 			}
 			switch {
 			case cur[id]: // duplicate: skipped
@@ -863,6 +864,14 @@ func (mc *machine) insert(rt *rapid.T) {
 	}
 	if o.dfltUnlisted = mc.defaultReadsUnlisted(sh, rows); o.dfltUnlisted && kf.Listed(findingDefaultUnlisted) {
 		mc.st.Excluded(findingDefaultUnlisted)
+		return
+	}
+	if nullDefault {
+		// IGNORE and an expression default that evaluates to NULL for a NOT NULL column: MySQL
+		// adjusts it like an explicit NULL, the engine rejects the statement ("default value
+		// attempted to return null"); the property statement allows both, and what a rejected
+		// INSERT IGNORE leaves behind is property C15's subject - not generated.
+		mc.st.Class("skipped:ignore-null-expression-default")
 		return
 	}
 	if ignore && mc.ignoreAmbiguous(rows, sh) {
@@ -1195,6 +1204,13 @@ func (mc *machine) update(rt *rapid.T) {
 	ignore := rapid.IntRange(0, 6).Draw(rt, "updateIgnore") == 0
 	as := mc.genAssignments(rt, false, nil)
 	p := mc.genPred(rt)
+	if ignore && t.cols[p.col].indexed {
+		// UPDATE IGNORE driven by a secondary index updates the wrong rows (its per-row
+		// checkpoints rewrite the index under the open index scan): a defect of DML execution
+		// (properties C13 / C16, see notes/C19.md), nothing C19 states - not generated.
+		mc.st.Class("skipped:update-ignore-through-secondary-index")
+		ignore = false
+	}
 	o := &outcome{kind: "update", alts: map[int64][][]val{}, ignore: ignore, checkOnly: true}
 	if ignore {
 		o.kind = "update-ignore"
@@ -1212,7 +1228,8 @@ func (mc *machine) update(rt *rapid.T) {
 			continue // unchanged rows are not re-validated
 		}
 		if ignore && len(u.nullDefault) > 0 {
-			o.class = either
+			mc.st.Class("skipped:ignore-null-expression-default")
+			return
 		}
 		switch {
 		case !ignore && !u.ok():
